@@ -2,7 +2,7 @@
 # dev aid: tools/sweep.sh <ID> <tier> <N|all> [seed]  -> /tmp/<id>.triage  (uses the already built harness)
 ID=$1; TIER=$2; N=$3; SEED=${4:-0}
 export LD_LIBRARY_PATH=$(cd /verif/harness && rustc --print sysroot)/lib
-export VERIF_ROOT=/verif VERIF_SEED=$SEED
+export VERIF_ROOT=/verif VERIF_SEED=$SEED VP_EVIDENCE_DIR=/tmp/sweep_evidence VP_VIOLATIONS_DIR=/tmp/sweep_violations
 L=$(echo $ID | tr A-Z a-z)
 rm -f /tmp/$L.triage
 if [ "$N" = all ]; then export VP_GRID_ALL=1; else export VP_GRID_N=$N; fi
